@@ -95,17 +95,21 @@ class LoanManager:
         # Only loans that have just been created can be canceled
         assert loan.created_at == self._ctx.dispatcher.now()
 
-        # Update balances.
-        collateral = self._collateral_by_loan[loan_id]
-        balance_updates = ValueMap({loan.borrowed_symbol: -loan.borrowed_amount})
-        self._ctx.account_balances.update(
-            balance_updates=balance_updates,
-            borrowed_updates=balance_updates,
-            hold_updates={symbol: -amount for symbol, amount in collateral.items()}
-        )
-
-        # Close the loan now that balance updates succeeded.
+        # The loan is closed before updating balances. Otherwise update rules, like the margin level check, would still
+        # take its interest into account and may reject going back to the balances we had before the loan.
         loan.close()
+        try:
+            collateral = self._collateral_by_loan[loan_id]
+            balance_updates = ValueMap({loan.borrowed_symbol: -loan.borrowed_amount})
+            self._ctx.account_balances.update(
+                balance_updates=balance_updates,
+                borrowed_updates=balance_updates,
+                hold_updates={symbol: -amount for symbol, amount in collateral.items()}
+            )
+        except Exception:
+            loan.reopen()
+            raise
+
         self._collateral_by_loan.pop(loan_id)
 
     def _get_open_loan(self, loan_id: str) -> lending_base.Loan:
